@@ -94,38 +94,163 @@ def firstOk (p : P) (ne : Option Nat) (loc : Nat) : Prop :=
   | none => True
   | some n => ∃ l ts, tryParse p n loc false false = .ok l ts
 
+/-! ### ignore-expressions (`_skipIgnorables`, core.py 773-793) -/
+
+/-- the inner `while 1` of _skipIgnorables for the ignore-expression `e` gets from `(k, loc)` to `(k', loc')` by
+    matches that advanced -/
+inductive OneReach (p : P) (e : Nat) : Nat → Nat → Nat → Nat → Prop
+  | refl (k loc) : OneReach p e k loc k loc
+  | iter {k loc l ts k' loc'} : p e loc true true = .ok l ts → loc < l → OneReach p e k l k' loc' →
+      OneReach p e (k + 1) loc k' loc'
+
+/-- the outer `while more` of _skipIgnorables gets from `(k, loc)` to `(k', loc')` by complete passes over all
+    ignore-expressions that skipped something -/
+inductive SkipReach (p : P) (slen : Nat) (ign : List Nat) : Nat → Nat → Nat → Nat → Prop
+  | refl (k loc) : SkipReach p slen ign k loc k loc
+  | round {k loc l k' loc'} : ignorePass p slen ign loc false = (.at l, true) → l ≠ loc →
+      SkipReach p slen ign k l k' loc' → SkipReach p slen ign (k + 1) loc k' loc'
+
+/-- `self._skipIgnorables(instring, loc)` calls the ignore-expression `e` at `l'` (`p e l' true true`): after some
+    complete rounds, after the ignore-expressions `pfx` listed before `e` are done in the current round, and after
+    `e` itself matched some number of times -/
+inductive IgnCall (p : P) (slen : Nat) (ign : List Nat) (loc : Nat) : Nat → Nat → Prop
+  | mk {k loc1 pfx e post l1 f1 j l'} :
+      SkipReach p slen ign (slen + 2) loc (k + 1) loc1 → ign = pfx ++ e :: post →
+      ignorePass p slen pfx loc1 false = (.at l1, f1) →
+      OneReach p e (slen + 2) l1 (j + 1) l' → IgnCall p slen ign loc e l'
+
+theorem ignoreOne_fatal {p : P} {e k loc k' l' : Nat} (h : OneReach p e k loc k' l') (j : Nat) (hk : k' = j + 1)
+    (c : Exc) (l : Nat) (hf : p e l' true true = .fail c l) (hc : c.isFatal = true) :
+    ∀ found, ∃ f', ignoreOne p e k loc found = (.abort (.fail c l), f') := by
+  induction h with
+  | refl k loc =>
+    intro found; subst hk
+    cases c <;> simp [Exc.isFatal] at hc <;> exact ⟨found, by simp [ignoreOne, hf]⟩
+  | iter hp hlt _ ih =>
+    intro found
+    obtain ⟨f', h'⟩ := ih hk hf true
+    exact ⟨f', by simp only [ignoreOne, hp]; rw [if_neg (by omega)]; exact h'⟩
+
+theorem ignorePass_append (p : P) (slen : Nat) (rest : List Nat) :
+    ∀ (pfx : List Nat) (loc : Nat) (found : Bool) (l1 : Nat) (f1 : Bool),
+      ignorePass p slen pfx loc found = (.at l1, f1) →
+      ignorePass p slen (pfx ++ rest) loc found = ignorePass p slen rest l1 f1 := by
+  intro pfx
+  induction pfx with
+  | nil => intro loc found l1 f1 h; simp [ignorePass] at h; obtain ⟨rfl, rfl⟩ := h; rfl
+  | cons x pfx ih =>
+    intro loc found l1 f1 h
+    simp only [List.cons_append, ignorePass] at h ⊢
+    rcases hio : ignoreOne p x (slen + 2) loc found with ⟨r, f⟩
+    cases r with
+    | «at» l => rw [hio] at h; simp only at h ⊢; exact ih _ _ _ _ h
+    | abort o => rw [hio] at h; simp at h
+
+theorem skipIgnorables_reach {p : P} {slen : Nat} {ign : List Nat} {k loc k' loc' : Nat}
+    (h : SkipReach p slen ign k loc k' loc') :
+    skipIgnorables p slen ign k loc = skipIgnorables p slen ign k' loc' := by
+  induction h with
+  | refl => rfl
+  | round hp hne _ ih =>
+    rw [← ih]; simp only [skipIgnorables, hp]
+    rw [if_neg (by simpa using hne)]
+
+theorem skipIgnorables_fatal {p : P} {slen : Nat} {ign : List Nat} {loc e l' : Nat}
+    (h : IgnCall p slen ign loc e l') (c : Exc) (l : Nat) (hf : p e l' true true = .fail c l)
+    (hc : c.isFatal = true) : skipIgnorables p slen ign (slen + 2) loc = .abort (.fail c l) := by
+  cases h with
+  | @mk k loc1 pfx e post l1 f1 j l' hreach hign hpfx hone =>
+    rw [skipIgnorables_reach hreach]
+    obtain ⟨f', h1⟩ := ignoreOne_fatal hone j rfl c l hf hc f1
+    have : ignorePass p slen ign loc1 false = (.abort (.fail c l), f') := by
+      rw [hign, ignorePass_append p slen _ pfx loc1 false l1 f1 hpfx]
+      simp only [ignorePass, h1]
+    simp only [skipIgnorables, this]
+
+/-- ParserElement.preParse re-raises a fatal exception of an ignore-expression -/
+theorem preParse_fatal {p : P} {nd : Node} {s : List Char} {loc e l' : Nat}
+    (hk : ∀ a b, nd.kind ≠ .lineStart a b) (hne : nd.ignore.isEmpty = false)
+    (h : IgnCall p s.length nd.ignore loc e l') (c : Exc) (l : Nat) (hf : p e l' true true = .fail c l)
+    (hc : c.isFatal = true) : preParse p nd s loc = .abort (.fail c l) := by
+  have := skipIgnorables_fatal h c l hf hc
+  unfold preParse
+  cases hkind : nd.kind <;> first
+    | (exfalso; exact hk _ _ hkind)
+    | simp only [hne, this, Bool.false_eq_true, if_false]
+
+/-! ### the scanning loop of SkipTo (core.py 5505-5536) -/
+
+/-- the scanning loop gets from `(k, tmploc)` to `(k', tmploc')` by positions at which `fail_on` did not match and
+    the target failed softly -/
+inductive ScanReach (p : P) (slen e : Nat) (failOn ignorer : Option Nat) : Nat → Nat → Nat → Nat → Prop
+  | refl (k t) : ScanReach p slen e failOn ignorer k t k t
+  | iter {k tmploc t k' t'} : tmploc ≤ slen → failOnCheck p failOn tmploc = some false →
+      ignStep p slen ignorer tmploc = .inr t → (p e t false false).soft = true →
+      ScanReach p slen e failOn ignorer k (t + 1) k' t' → ScanReach p slen e failOn ignorer (k + 1) tmploc k' t'
+
+theorem skipScan_reach {p : P} {slen e : Nat} {failOn ignorer : Option Nat} (loc0 : Nat) {k t k' t' : Nat}
+    (h : ScanReach p slen e failOn ignorer k t k' t') :
+    skipScan p slen e failOn ignorer loc0 k t = skipScan p slen e failOn ignorer loc0 k' t' := by
+  induction h with
+  | refl => rfl
+  | @iter k tmploc t k' t' hle hfo hig hsoft _ ih =>
+    rw [← ih]
+    simp only [skipScan, hfo, hig]
+    rw [if_neg (by omega)]
+    cases hp : p e t false false with
+    | ok l ts => rw [hp] at hsoft; simp [Out.soft] at hsoft
+    | hang => rw [hp] at hsoft; simp [Out.soft] at hsoft
+    | idx => rfl
+    | fail c l => cases c <;> first | rfl | (rw [hp] at hsoft; simp [Out.soft] at hsoft)
+
 /-- one propagating call position inside `parseImpl g p nd s pre acts`; see the module comment -/
 inductive ImplStep (g : Grammar) (s : List Char) (p : P) (nd : Node) (pre : Nat) (acts : Bool) :
-    Tag → Nat → Nat → Bool → Prop
+    Tag → Nat → Nat → Bool → Bool → Prop
   /-- And: the first element -/
-  | andFirst {e0 rest} : nd.kind = .and (e0 :: rest) → ImplStep g s p nd pre acts .plain e0 pre false
+  | andFirst {e0 rest} : nd.kind = .and (e0 :: rest) → ImplStep g s p nd pre acts .plain e0 pre acts false
   /-- And: a later element `e`, reached after the first element and the elements `pfx` in between all succeeded;
       `stop` = an `_ErrorStop` was passed on the way -/
   | andLater {e0 pfx e post l0 ts0 stop l' acc} : nd.kind = .and (e0 :: (pfx ++ e :: post)) →
       p e0 pre acts false = .ok l0 ts0 →
       andPrefix p (isStopOf g) acts pfx false l0 ts0 = some (stop, l', acc) → isStopOf g e = false →
-      ImplStep g s p nd pre acts (if stop then .afterStop else .plain) e l' true
+      ImplStep g s p nd pre acts (if stop then .afterStop else .plain) e l' acts true
   /-- MatchFirst: an alternative reached after all earlier ones failed softly (ParseException / IndexError) -/
   | matchFirst {pfx e post} : nd.kind = .matchFirst (pfx ++ e :: post) →
-      (∀ x ∈ pfx, (p x pre acts true).soft = true) → ImplStep g s p nd pre acts .plain e pre true
-  | opt {e d} : nd.kind = .opt e d → ImplStep g s p nd pre acts .plain e pre false
+      (∀ x ∈ pfx, (p x pre acts true).soft = true) → ImplStep g s p nd pre acts .plain e pre acts true
+  | opt {e d} : nd.kind = .opt e d → ImplStep g s p nd pre acts .plain e pre acts false
   /-- OneOrMore / ZeroOrMore: the first iteration -/
   | manyFirst {e ne one} : nd.kind = .many e ne one → firstOk p ne pre →
-      ImplStep g s p nd pre acts .plain e pre true
+      ImplStep g s p nd pre acts .plain e pre acts true
   /-- OneOrMore / ZeroOrMore: a later iteration, reached after the preceding ones matched, the stop_on sentinel
       did not match and the ignorables were skipped -/
   | manyLater {e ne one l0 ts0 k l' acc preloc} : nd.kind = .many e ne one → firstOk p ne pre →
       p e pre acts true = .ok l0 ts0 →
       LoopReach p nd acts s.length e ne (s.length + 2) l0 ts0 (k + 1) l' acc →
       stopCheck p ne l' = some false → manyPre p nd s.length l' = .at preloc →
-      ImplStep g s p nd pre acts .plain e preloc true
-  | group {e} : nd.kind = .group e → ImplStep g s p nd pre acts (.enh pre) e pre false
-  | suppress {e} : nd.kind = .suppress e → ImplStep g s p nd pre acts (.enh pre) e pre false
-  | combine {e j} : nd.kind = .combine e j → ImplStep g s p nd pre acts (.enh pre) e pre false
-  | enhance {e} : nd.kind = .enhance e → ImplStep g s p nd pre acts (.enh pre) e pre false
-  | forward {e} : nd.kind = .forward (some e) → ImplStep g s p nd pre acts (.enh pre) e pre false
-  | followedBy {e} : nd.kind = .followedBy e → ImplStep g s p nd pre acts .plain e pre true
-  | located {e} : nd.kind = .located e → ImplStep g s p nd pre acts .plain e pre false
+      ImplStep g s p nd pre acts .plain e preloc acts true
+  | group {e} : nd.kind = .group e → ImplStep g s p nd pre acts (.enh pre) e pre acts false
+  | suppress {e} : nd.kind = .suppress e → ImplStep g s p nd pre acts (.enh pre) e pre acts false
+  | combine {e j} : nd.kind = .combine e j → ImplStep g s p nd pre acts (.enh pre) e pre acts false
+  | enhance {e} : nd.kind = .enhance e → ImplStep g s p nd pre acts (.enh pre) e pre acts false
+  | forward {e} : nd.kind = .forward (some e) → ImplStep g s p nd pre acts (.enh pre) e pre acts false
+  | followedBy {e} : nd.kind = .followedBy e → ImplStep g s p nd pre acts .plain e pre acts true
+  | located {e} : nd.kind = .located e → ImplStep g s p nd pre acts .plain e pre acts false
+  /-- OneOrMore / ZeroOrMore: an ignore-expression skipped in front of a later iteration (`self._skipIgnorables`) -/
+  | manyIgnore {e ne one l0 ts0 k l' acc ie il} : nd.kind = .many e ne one → firstOk p ne pre →
+      p e pre acts true = .ok l0 ts0 →
+      LoopReach p nd acts s.length e ne (s.length + 2) l0 ts0 (k + 1) l' acc →
+      stopCheck p ne l' = some false → nd.ignore.isEmpty = false → IgnCall p s.length nd.ignore l' ie il →
+      ImplStep g s p nd pre acts .plain ie il true true
+  /-- SkipTo: the target expression tried (without actions, without pre-parse) at a scanning position; the real
+      code catches only `(ParseException, IndexError)` there -/
+  | skipScan {e incl failOn ignorer k tmploc t} : nd.kind = .skipTo e incl failOn ignorer →
+      ScanReach p s.length e failOn ignorer (s.length + 2) pre (k + 1) tmploc → tmploc ≤ s.length →
+      failOnCheck p failOn tmploc = some false → ignStep p s.length ignorer tmploc = .inr t →
+      ImplStep g s p nd pre acts .plain e t false false
+  /-- SkipTo(include=True): the target parsed again, with actions, where the scan found it -/
+  | skipInclude {e failOn ignorer t} : nd.kind = .skipTo e true failOn ignorer →
+      PP.Parse.skipScan p s.length e failOn ignorer pre (s.length + 2) pre = .inr t →
+      ImplStep g s p nd pre acts .plain e t acts false
 
 theorem Tag.app_enh_eq (loc : Nat) (c : Exc) (l : Nat) :
     Tag.app (.enh loc) (c, l) = (c, if c = .syntax then l else if l == 0 then loc else l) := by
@@ -139,8 +264,8 @@ theorem enhanceImpl_fail (p : P) (acts : Bool) (e loc : Nat) (c : Exc) (l : Nat)
 /-- **single step**: a failure of the callee in a propagating position leaves `parseImpl` as the failure `t.app`
     of it — provided it is fatal, or the position is behind an error stop -/
 theorem implStep_fail {g : Grammar} {s : List Char} {p : P} {nd : Node} {pre : Nat} {acts : Bool}
-    {t : Tag} {e l' : Nat} {cp' : Bool} (h : ImplStep g s p nd pre acts t e l' cp') (c : Exc) (l : Nat)
-    (hf : p e l' acts cp' = .fail c l) (hc : c.isFatal = true ∨ t = .afterStop) :
+    {t : Tag} {e l' : Nat} {acts' cp' : Bool} (h : ImplStep g s p nd pre acts t e l' acts' cp') (c : Exc) (l : Nat)
+    (hf : p e l' acts' cp' = .fail c l) (hc : c.isFatal = true ∨ t = .afterStop) :
     parseImpl g p nd s pre acts = .fail (t.app (c, l)).1 (t.app (c, l)).2 := by
   have hcf : t ≠ .afterStop → c.isFatal = true := fun hn => hc.resolve_right hn
   cases h with
@@ -194,6 +319,32 @@ theorem implStep_fail {g : Grammar} {s : List Char} {p : P} {nd : Node} {pre : N
   | followedBy hk =>
     simpa [Tag.app] using followedBy_never_swallows g p nd s pre acts _ c l hk hf
   | located hk => unfold parseImpl; simp [hk, hf, Tag.app]
+  | @manyIgnore e ne one l0 ts0 k lq acc ie il hk hfirst h0 hreach hs hne hig =>
+    have hfat := hcf (by simp)
+    have hpre : manyPre p nd s.length lq = .abort (.fail c l) := by
+      simp only [manyPre, hne, Bool.false_eq_true, if_false]; exact skipIgnorables_fatal hig c l hf hfat
+    have hl : manyLoop p nd acts s.length e ne (k + 1) lq acc = .fail c l := by
+      cases c <;> simp [Exc.isFatal] at hfat <;> simp [manyLoop, hs, hpre]
+    have hm : manyImpl p nd acts s.length e ne pre = .fail c l := by
+      rw [← hl, ← manyLoop_reach hreach]
+      cases ne with
+      | none => simp [manyImpl, h0]
+      | some n =>
+        obtain ⟨l1, ts1, h1⟩ := hfirst
+        simp [manyImpl, h1, h0]
+    cases one with
+    | true => unfold parseImpl; simp [hk, hm, Tag.app]
+    | false => simpa [Tag.app] using zeroOrMore_never_swallows_fatal g p nd s pre acts e ne c l hk hm hfat
+  | @skipScan e incl failOn ignorer k tmploc t hk hreach hle hfo hig =>
+    have hfat := hcf (by simp)
+    have hsc : PP.Parse.skipScan p s.length e failOn ignorer pre (s.length + 2) pre = .inl (.fail c l) := by
+      rw [skipScan_reach pre hreach]
+      simp only [PP.Parse.skipScan, hfo, hig, hf]
+      rw [if_neg (by omega)]
+      cases c <;> simp [Exc.isFatal] at hfat <;> rfl
+    unfold parseImpl; simp [hk, skipToImpl, hsc, Tag.app]
+  | @skipInclude e failOn ignorer t hk hsc =>
+    unfold parseImpl; simp [hk, skipToImpl, hsc, hf, Tag.app]
 
 /-! ### algebra of `Tag.app` along a path (outermost container first) -/
 
